@@ -5,16 +5,17 @@
 # A change whose meta.json has "obsolete" (a later fix: commit made it harmless) is skipped.
 TIER=${1:-quick}
 PAT=${2:-*}
-cd /verif || exit 2
+V=$(cd "$(dirname "$0")/.." && pwd)
+cd "$V" || exit 2
 tot=0; det=0; missed=""
 for d in seeded/$PAT/; do
 	n=$(basename "$d")
 	p=$(python3 -c "
 import json
-m=json.load(open('/verif/seeded/$n/meta.json'))
+m=json.load(open('$V/seeded/$n/meta.json'))
 print('OBSOLETE' if m.get('obsolete') else m.get('caught_by') or m['property'])")
 	if [ "$p" = OBSOLETE ]; then echo "$n: skipped (obsolete)"; continue; fi
-	r=$(sh tools/seedtest.sh "/verif/seeded/$n" "$p" "$TIER" 2>&1 | tail -1)
+	r=$(sh tools/seedtest.sh "$V/seeded/$n" "$p" "$TIER" 2>&1 | tail -1)
 	tot=$((tot + 1))
 	case "$r" in
 	DETECTED*) det=$((det + 1));;
